@@ -365,6 +365,23 @@ func c19Generate(tier string, emit func(src string)) {
 		emit("<pre>" + body + "</pre>")
 		emit("<div><pre class=\"c\">" + body + "</pre></div>")
 	}
+	// pre / textarea content as a grammar: newlines and spaces at every position, also at the
+	// start of nested elements
+	preTok := []string{"\n", "  ", "x", "<b>y</b>", "{{ v }}"}
+	maxPre := 3
+	if tier == "thorough" {
+		maxPre = 5
+	}
+	tokenStrings(preTok, maxPre, func(tok []int) {
+		body := joinTokens(preTok, tok)
+		emit("<pre>" + body + "</pre>")
+		emit("<pre><code>" + body + "</code></pre>")
+		emit("<div>\n  <pre><span><i>" + body + "</i></span>\n</pre>\n</div>")
+		if !strings.Contains(body, "<b>") {
+			emit("<textarea>" + body + "</textarea>")
+			emit("<p><textarea name=\"t\">" + body + "</textarea></p>")
+		}
+	})
 	for _, body := range []string{"var a = 1 < 2 && b;", "\n  if (x) {\n    y();\n  }\n", "/* {{ m }} */", ".a > .b { color: red }"} {
 		emit("<script>" + body + "</script>")
 		emit("<style>" + body + "</style>")
@@ -385,7 +402,7 @@ func init() {
 	core.Register(&core.Check{
 		ID:    "C19",
 		Level: "exploration",
-		Rule: "corpus part (finite, complete): every .vuego file under the repository and every ```html fence of docs/*.md and README.md; generated part: one element of 18 kinds x 13 attribute values (quotes, entities, operators, newlines, mustaches, JSON) x 8 texts; all parent/child pairs x text placements; pre / script / style whitespace; front-matter x documents. " +
+		Rule: "corpus part (finite, complete): every .vuego file under the repository and every ```html fence of docs/*.md and README.md; generated part: one element of 18 kinds x 13 attribute values (quotes, entities, operators, newlines, mustaches, JSON) x 8 texts; all parent/child pairs x text placements; pre / script / style whitespace; pre and textarea content from a grammar (every string of <=3 tokens over {newline, spaces, text, element, mustache}, bare and inside nested elements); front-matter x documents. " +
 			"oracle: Format(Format(x)) == Format(x); Format(x) parses to the same elements, attribute names and whitespace-collapsed values, the same non-whitespace text, the same mustache expressions, identical front-matter, doctype and pre/raw-text content. non-trivial = parser-stable input",
 		Bounds:      map[string]string{"quick": "corpus + generated fragments of depth <=2", "thorough": "corpus + generated fragments of depth <=3"},
 		Assumptions: []string{"golang.org/x/net/html in body-fragment mode (document mode when the source contains </html>) defines what a template means", "inputs that are not parser-stable are skipped and counted"},
